@@ -59,6 +59,12 @@ CHECKS["C14"] = ("exhaustive enumeration of every applicable single semantic mut
 CHECKS["C17"] = ("bounded-exhaustive enumeration of machine states (register rotations, all 512 combinations of the nine flags, patterned memory), range forms x starts x lengths x 5 spellings, and of prompt scripts with one print command (100+ command alphabet) at every prompt position, each run through the real CLI binary; stdout parsed back and compared with the reference interpreter's state; prints after every print decide 'never alters'",
     "Every register holds every lattice value once, every combination of the nine flags, ranges of length 0..64 at 8 starts incl. the top of memory in both absolute forms and DS-relative for DS over the segment lattice (incl. ranges leaving the space and backwards ranges, which must be reported), constants in all radices and beyond 2^20 / 2^64; the same commands typed at INT 3, -i and trap-flag prompts.",
     "DESIGN.md section 6 C17")
+CHECKS["C18"] = ("bounded-exhaustive enumeration of (interrupt, AH) x register lattices x buffer placements (incl. crossing 2^20 and 16-bit offset wrap) x capacities x stdin shapes (closed, empty, shorter, equal, longer, no newline, two lines, 300 characters, UTF-8), every unsupported AH 0..255 for both interrupts, and all ordered pairs of services, each run through the real CLI binary with scripted stdin; service output matched byte for byte, registers/flags/marker windows parsed back from print statements",
+    "All supported services over AL/DL/CX/DX/BP/segment lattices with buffers ending at 0xFFFFF and wrapping, capacities 0/1/5/255, nine stdin shapes incl. end of input; every other AH value for INT 10h and INT 21h must be reported with the right line and stop the program; all 25 service pairs share one stdin.",
+    "DESIGN.md section 6 C18")
+CHECKS["C20"] = ("deviation-bounded exhaustive exploration of prompt scripts on the real CLI binary: for every (program, stepping mode) the default script answers every read with n; ALL scripts with at most d deviations (alternative advancing answers, non-advancing answers inserted, terminating answers, end of input at every read) are run; stdout matched event by event against the reference interpreter, plus a relational oracle (stepped output minus prompt artefacts equals the plain run)",
+    "10 (thorough 12) terminating programs x stepping by -i, by POPF-set trap flag at position k, by INT 3 at position k and everywhere; complete script sets to 1 or 2 (thorough 3) deviations per pair; exactly one prompt per executed instruction naming its line, prints answered without advancing, quit and end of input terminate, no script spins or aborts (watchdog, output cap).",
+    "DESIGN.md section 6 C20")
 NOT_YET = {}
 
 def main():
